@@ -44,6 +44,35 @@ func (rc resultContainer) value() interface{} {
 	return nil
 }
 
+// typ returns the type of the value held by the container.
+func (rc resultContainer) typ() ast.ValueType {
+	switch {
+	case rc.IsBoolValue:
+		return ast.TBool
+	case rc.IsInt64Value:
+		return ast.TInt
+	case rc.IsFloat64Value:
+		return ast.TFloat
+	case rc.IsStringValue:
+		return ast.TString
+	case rc.IsDurationValue:
+		return ast.TDuration
+	}
+	return ast.InvalidType
+}
+
+// errUnexpectedResultType reports that a binary node evaluated to a type other than the one
+// it was asked for. It keeps the historical message and carries the actual type, so that a
+// parent node can pick the evaluation function matching the new operand type.
+type errUnexpectedResultType struct {
+	actual ast.ValueType
+	value  interface{}
+}
+
+func (e errUnexpectedResultType) Error() string {
+	return fmt.Sprintf("expression returned unexpected type %T", e.value)
+}
+
 // ErrSide wraps the error in the evaluation, we use this error to indicate the origin of the error
 // left side or right side
 type ErrSide struct {
@@ -174,7 +203,7 @@ func (e *EvalBinaryNode) EvalDuration(scope *Scope, executionState ExecutionStat
 		return result.DurationValue, nil
 	}
 
-	return 0, fmt.Errorf("expression returned unexpected type %T", result.value())
+	return 0, errUnexpectedResultType{actual: result.typ(), value: result.value()}
 }
 
 func (e *EvalBinaryNode) EvalString(scope *Scope, executionState ExecutionState) (string, error) {
@@ -187,7 +216,7 @@ func (e *EvalBinaryNode) EvalString(scope *Scope, executionState ExecutionState)
 		return result.StringValue, nil
 	}
 
-	return "", fmt.Errorf("expression returned unexpected type %T", result.value())
+	return "", errUnexpectedResultType{actual: result.typ(), value: result.value()}
 }
 
 // EvalBool executes the expression based on eval bool
@@ -207,7 +236,7 @@ func (e *EvalBinaryNode) EvalBool(scope *Scope, executionState ExecutionState) (
 		return result.BoolValue, nil
 	}
 
-	return false, fmt.Errorf("expression returned unexpected type %T", result.value())
+	return false, errUnexpectedResultType{actual: result.typ(), value: result.value()}
 }
 
 // EvalNum executes the expression based on eval numeric
@@ -225,7 +254,7 @@ func (e *EvalBinaryNode) EvalFloat(scope *Scope, executionState ExecutionState) 
 		return float64(0), ErrTypeGuardFailed{RequestedType: ast.TFloat, ActualType: ast.TInt}
 	}
 
-	return float64(0), ErrTypeGuardFailed{RequestedType: ast.TFloat, ActualType: e.constReturnType}
+	return float64(0), ErrTypeGuardFailed{RequestedType: ast.TFloat, ActualType: e.actualType(result)}
 }
 
 func (e *EvalBinaryNode) EvalInt(scope *Scope, executionState ExecutionState) (int64, error) {
@@ -242,11 +271,31 @@ func (e *EvalBinaryNode) EvalInt(scope *Scope, executionState ExecutionState) (i
 		return int64(0), ErrTypeGuardFailed{RequestedType: ast.TInt, ActualType: ast.TFloat}
 	}
 
-	return int64(0), ErrTypeGuardFailed{RequestedType: ast.TInt, ActualType: e.constReturnType}
+	return int64(0), ErrTypeGuardFailed{RequestedType: ast.TInt, ActualType: e.actualType(result)}
 
 }
 
+// actualType is the type a type guard error should report for the given result.
+func (e *EvalBinaryNode) actualType(result resultContainer) ast.ValueType {
+	if t := result.typ(); t != ast.InvalidType {
+		return t
+	}
+	return e.constReturnType
+}
+
 func (e *EvalBinaryNode) eval(scope *Scope, executionState ExecutionState) (resultContainer, *ErrSide) {
+	if e.evaluationFn == nil && scope != nil {
+		// No function matched the operand types of an earlier evaluation.
+		// Operand types can change from one evaluation to the next, so look
+		// again with the current types before reporting a mismatch.
+		if leftType, err := e.leftEvaluator.Type(scope); err == nil {
+			if rightType, err := e.rightEvaluator.Type(scope); err == nil {
+				e.leftType = leftType
+				e.rightType = rightType
+				e.evaluationFn = e.lookupEvaluationFn()
+			}
+		}
+	}
 	if e.evaluationFn == nil {
 		err := e.determineError(scope, executionState)
 		return boolFalseResultContainer, &ErrSide{error: err}
@@ -260,7 +309,12 @@ func (e *EvalBinaryNode) eval(scope *Scope, executionState ExecutionState) (resu
 	// after the first evaluation, let's assume that "value" is changed to int64 - we need to change
 	// the comparison fn
 	if err != nil {
-		if typeGuardErr, isTypeGuardError := err.error.(ErrTypeGuardFailed); isTypeGuardError {
+		typeGuardErr, isTypeGuardError := err.error.(ErrTypeGuardFailed)
+		if resultTypeErr, ok := err.error.(errUnexpectedResultType); ok && resultTypeErr.actual != ast.InvalidType {
+			// An operand that is itself a binary node evaluated to another type than before.
+			typeGuardErr, isTypeGuardError = ErrTypeGuardFailed{ActualType: resultTypeErr.actual}, true
+		}
+		if isTypeGuardError {
 			// Fix the type info, thanks to the type guard info
 			if err.IsLeft {
 				e.leftType = typeGuardErr.ActualType
